@@ -33,6 +33,12 @@ WinAreaOf(x, w) == LET S == WinIdxOf(x, w) IN
                    FoldLeft(LAMBDA acc, j : IF j \in S THEN acc + x.windows[j].area ELSE acc, 0,
                             [j \in 1..Len(x.windows) |-> j])
 
+\* net area of wall i (10^-4 m2): gross area minus its windows. The code rounds it to 0.01 m2: its figure is used when
+\* it lies within that rounding of the model's, the model's own otherwise (so that a wrong net area shows in K and n50)
+NetAreaOf(x, p, i) ==
+  LET own == x.walls[i].area - WinAreaOf(x, x.walls[i]) IN
+  IF p.walls[i].anetbad \/ own < 0 \/ Abs(p.walls[i].anet - own) <= 100 THEN p.walls[i].anet ELSE own
+
 \* C11: per-wall properties the implementation reports must be the ones the model defines
 WallPropsOk(x, p, i) ==
   LET w == x.walls[i]  pw == p.walls[i] IN
@@ -129,10 +135,10 @@ KWins(x)  == { j \in DOMAIN x.windows : \E i \in KWalls(x) : x.windows[j].wall =
 SeqOfSet(S, n) == SelectSeq([i \in 1..n |-> i], LAMBDA i : i \in S)
 \* 10^-6 m2 and 10^-10 W/K
 CatA(x, p, c)  == BigSumSeq(SeqOfSet(KWalls(x), Len(x.walls)),
-                    LAMBDA i : IF Cat(x.walls[i]) = c THEN BigProd2(p.walls[i].anet, MultOf(x, x.walls[i])) ELSE BigZero)
+                    LAMBDA i : IF Cat(x.walls[i]) = c THEN BigProd2(NetAreaOf(x, p, i), MultOf(x, x.walls[i])) ELSE BigZero)
 CatAU(x, p, c) == BigSumSeq(SeqOfSet(KWalls(x), Len(x.walls)),
                     LAMBDA i : IF Cat(x.walls[i]) = c
-                               THEN BigProd3(p.walls[i].anet, MultOf(x, x.walls[i]), UEff(p.walls[i])) ELSE BigZero)
+                               THEN BigProd3(NetAreaOf(x, p, i), MultOf(x, x.walls[i]), UEff(p.walls[i])) ELSE BigZero)
 WinA(x, p)  == BigSumSeq(SeqOfSet(KWins(x), Len(x.windows)),
                     LAMBDA j : BigProd2(x.windows[j].area, WinMultOf(x, j)))
 WinAU(x, p) == BigSumSeq(SeqOfSet(KWins(x), Len(x.windows)),
@@ -192,7 +198,7 @@ KOk(x, p, k) ==
 N50Walls(x) == { i \in DOMAIN x.walls : Tenv(x, x.walls[i]) /\ x.walls[i].bounds = "EXTERIOR" }
 N50Wins(x)  == { j \in DOMAIN x.windows : \E i \in N50Walls(x) : x.windows[j].wall = x.walls[i].id }
 C100Of(x, v) == IF Has(x.wincons, v.cons) THEN x.wincons[IdxOf(x.wincons, v.cons)].c100 ELSE 10000
-AoBig(x, p) == BigSumSeq(SeqOfSet(N50Walls(x), Len(x.walls)), LAMBDA i : BigProd2(p.walls[i].anet, MultOf(x, x.walls[i])))
+AoBig(x, p) == BigSumSeq(SeqOfSet(N50Walls(x), Len(x.walls)), LAMBDA i : BigProd2(NetAreaOf(x, p, i), MultOf(x, x.walls[i])))
 AhBig(x, p) == BigSumSeq(SeqOfSet(N50Wins(x), Len(x.windows)), LAMBDA j : BigProd2(x.windows[j].area, WinMultOf(x, j)))
 \* 10^-8 m3/h
 ChAhBig(x, p) == BigSumSeq(SeqOfSet(N50Wins(x), Len(x.windows)),
